@@ -1,11 +1,143 @@
-"""Native replay of solver counterexamples (filled in per property)."""
+"""Native replay of solver counterexamples.
+
+A FAILED harness is re-run with Kani's concrete playback to obtain the satisfying assignment (the
+byte values of every kani::any() in order).  The assignment is then executed NATIVELY: the harness
+function itself — i.e. the real rtcm-rs code plus the harness's assertions — is compiled as an
+ordinary test (no CBMC) in three profiles: dev, release, release + overflow-checks.  Only a
+counterexample whose native run panics (assertion of the harness or panic inside rtcm-rs) in at
+least one profile is reported as a violation; anything else is 'inconclusive' (exit 2).
+"""
+import json
 import os
+import re
+import shutil
+import subprocess
+import time
+
+ROOT = os.path.dirname(os.path.dirname(os.path.abspath(__file__)))
+KANI_DIR = os.path.join(ROOT, "kani")
+
+# cargo-kani playback has no --release; the profile is turned into the release settings through
+# cargo's environment overrides of the dev/test profiles (opt-level 3, no debug assertions).
+_REL = {"OPT_LEVEL": "3", "DEBUG_ASSERTIONS": "false", "DEBUG": "0"}
+PROFILES = [
+    ("dev", {}),
+    ("release", dict(_REL, OVERFLOW_CHECKS="false")),
+    ("release+overflow-checks", dict(_REL, OVERFLOW_CHECKS="true")),
+]
 
 
-def confirm(pid, name, result, hinfo, workdir, log):
-    return {"reproduced": False, "why": "no replay driver for this harness yet", "path": ""}
+def _env(rustflags):
+    e = dict(os.environ, CARGO_NET_OFFLINE="true", RUSTFLAGS=rustflags)
+    e.pop("RUSTUP_TOOLCHAIN", None)
+    return e
+
+
+def _safe(name):
+    return re.sub(r"[^A-Za-z0-9_]+", "_", name)
+
+
+def extract_tests(pid, name, group, workdir, log, timeout=3600):
+    target = os.path.join(KANI_DIR, "target-%s-replay" % pid.lower())
+    cmd = ["cargo", "kani", "--features", ",".join(group["features"]), "--target-dir", target,
+           "-Z", "concrete-playback", "--concrete-playback=print", "--exact", "--harness", name]
+    cmd += group.get("kani_args", [])
+    if group.get("cbmc_args"):
+        cmd += ["-Z", "unstable-options", "--cbmc-args"] + group["cbmc_args"]
+    try:
+        p = subprocess.run(cmd, cwd=KANI_DIR, env=_env("--cfg rtcm_rs_verif"), capture_output=True, text=True, timeout=timeout)
+    except subprocess.TimeoutExpired:
+        return []
+    out = p.stdout + p.stderr
+    tests = []
+    for m in re.finditer(r"#\[test\]\s*fn (kani_concrete_playback_\w+)\(\)\s*\{(.*?)\n\}", out, flags=re.S):
+        body = m.group(2)
+        vals = [[int(x) for x in v.split(",") if x.strip()] for v in re.findall(r"vec!\[([0-9,\s]*)\],", body)]
+        tests.append({"test": m.group(1), "vals": vals})
+    return tests
+
+
+def run_native(pid, name, group, tests, workdir, log):
+    """Build the scratch replay crate and run the tests in each profile."""
+    scratch = os.path.join(workdir, "playback_" + _safe(name))
+    if os.path.isdir(scratch):
+        shutil.rmtree(scratch)
+    os.makedirs(scratch)
+    shutil.copytree(os.path.join(KANI_DIR, "src"), os.path.join(scratch, "src"))
+    shutil.copytree(os.path.join(KANI_DIR, ".cargo"), os.path.join(scratch, ".cargo"))
+    shutil.copyfile(os.path.join(KANI_DIR, "Cargo.toml"), os.path.join(scratch, "Cargo.toml"))
+    if os.path.exists(os.path.join(KANI_DIR, "Cargo.lock")):
+        shutil.copyfile(os.path.join(KANI_DIR, "Cargo.lock"), os.path.join(scratch, "Cargo.lock"))
+    path = "crate::" + name
+    code = ["", "#[cfg(test)]", "mod verif_playback {"]
+    for t in tests:
+        code.append("    #[test]")
+        code.append("    fn %s() {" % t["test"])
+        code.append("        let concrete_vals: Vec<Vec<u8>> = vec![%s];" % ", ".join("vec![%s]" % ", ".join(str(b) for b in v) for v in t["vals"]))
+        code.append("        kani::concrete_playback_run(concrete_vals, %s);" % path)
+        code.append("    }")
+    code.append("}")
+    with open(os.path.join(scratch, "src", "lib.rs"), "a") as f:
+        f.write("\n".join(code) + "\n")
+    outcome = {}
+    target = os.path.join(KANI_DIR, "target-playback")
+    for pname, prof in PROFILES:
+        cmd = ["cargo", "kani", "playback", "-Z", "concrete-playback", "--features", ",".join(group["features"]),
+               "--", "verif_playback", "--test-threads", "1"]
+        e = _env("--cfg rtcm_rs_verif")
+        for k, v in prof.items():
+            e["CARGO_PROFILE_DEV_" + k] = v
+            e["CARGO_PROFILE_TEST_" + k] = v
+        e["CARGO_TARGET_DIR"] = target + "-" + re.sub(r"[^a-z]", "", pname)
+        p = subprocess.run(cmd, cwd=scratch, env=e, capture_output=True, text=True)
+        out = p.stdout + p.stderr
+        failed = re.findall(r"test verif_playback::(\w+) \.\.\. FAILED", out)
+        passed = re.findall(r"test verif_playback::(\w+) \.\.\. ok", out)
+        panics = re.findall(r"panicked at ([^\n]*)\n([^\n]*)", out)
+        outcome[pname] = {"failed": failed, "passed": passed, "panics": [" ".join(x)[:300] for x in panics][:6],
+                          "ran": bool(failed or passed), "exit": p.returncode}
+        if not (failed or passed):
+            outcome[pname]["tail"] = out[-1500:]
+    return scratch, outcome
+
+
+def confirm(pid, name, result, hinfo, group, workdir, log):
+    t0 = time.time()
+    tests = extract_tests(pid, name, group, workdir, log)
+    if not tests:
+        return {"reproduced": False, "why": "no concrete playback assignment obtained", "path": ""}
+    scratch, outcome = run_native(pid, name, group, tests, workdir, log)
+    reproduced = any(o["failed"] for o in outcome.values())
+    rdir = os.path.join(ROOT, "replays", pid)
+    os.makedirs(rdir, exist_ok=True)
+    rpath = os.path.join(rdir, _safe(name) + ".json")
+    rec = {"property": pid, "harness": name, "features": group["features"], "tests": tests,
+           "native_outcome": outcome, "failed_checks": result.get("failed_checks"),
+           "how": "cargo kani playback of the harness function on the recorded kani::any() values; profiles dev / release / release + -C overflow-checks=on",
+           "replay_cmd": "./check %s --replay %s" % (pid, rpath)}
+    with open(rpath, "w") as f:
+        f.write(json.dumps(rec, indent=1).replace("[\n     ", "[").replace("\n    ]", "]"))
+    if not os.environ.get("VERIF_KEEP_SCRATCH"):
+        shutil.rmtree(scratch, ignore_errors=True)
+    why = "" if reproduced else "native run of the recorded assignment did not panic in any profile: %s" % json.dumps({k: (v["passed"], v.get("tail", "")[-300:]) for k, v in outcome.items()})
+    log("[%s] replay %s: reproduced=%s (%.0fs) %s" % (pid, name, reproduced, time.time() - t0,
+                                                     {k: ("FAILED" if v["failed"] else "ok" if v["passed"] else "not run") for k, v in outcome.items()}))
+    return {"reproduced": reproduced, "why": why, "path": rpath,
+            "profiles": {k: ("panics" if v["failed"] else "ok" if v["passed"] else "not run") for k, v in outcome.items()},
+            "panics": sum((v["panics"] for v in outcome.values()), [])[:4]}
 
 
 def replay_file(pid, path):
-    print("replay not implemented for", pid, path)
-    return 2
+    rec = json.load(open(path))
+    workdir = os.path.join(ROOT, "work", pid)
+    os.makedirs(workdir, exist_ok=True)
+    group = {"features": rec["features"]}
+    scratch, outcome = run_native(pid, rec["harness"], group, rec["tests"], workdir, print)
+    shutil.rmtree(scratch, ignore_errors=True)
+    reproduced = any(o["failed"] for o in outcome.values())
+    for k, v in outcome.items():
+        print("profile %-24s %s %s" % (k, "PANICS" if v["failed"] else "ok" if v["passed"] else "not run", v["panics"][:2]))
+    if reproduced:
+        print("VIOLATION property=%s replay=%s" % (pid, path))
+        return 1
+    return 0
